@@ -83,6 +83,15 @@ def run(rep, tier, driver):
     for fg in vocab.fg_tokens:
         for sugar in (["Glc", "Neu", "Fuc"] if tier == "quick" else ["Glc", "Neu", "Fuc", "Kdo", "Xyl", "Fruf", "GlcNAc", "1,6-Anhydro-Glc"]):
             jobs.append(("%s%d%s" % (sugar, rng.choice([1, 2, 3, 4, 5, 6, 9]), fg), {}, "single-mod"))
+    # two modifications on one residue, the second one addressing a carbon the first one added (second reactor round: position markers are
+    # written onto substituent atoms - charged, ring members, ... - and must not survive in whatever is released)
+    for fg in vocab.fg_tokens:
+        for sugar, p1, late in ([("Glc", 2, (7, 8, 9))] if tier == "quick" else
+                                [("Glc", 2, (7, 8, 9)), ("Glc", 3, (7, 8, 9, 10)), ("Xyl", 2, (6, 7, 8)), ("Neu", 5, (10, 11, 12)), ("Gal", 6, (7, 8, 9)), ("Fruf", 1, (7, 8, 9))]):
+            for p2 in late:
+                jobs.append(("%s%d%s%d%s" % (sugar, p1, fg, p2, rng.choice(["Ac", "Me", "S"])), {}, "late-position-pair"))
+    for s in ["Gal(b1-4)Glc2PCho8Ac", "Glc2PCho8Ac(a1-4)Glc", "Glc3Cho9Me", "Xyl2PCho7Ac", "Glc6PCho", "Neu5Ac9Ac"]:
+        jobs.append((s, {}, "late-position-pair"))
     # nesting depth / width stress
     for d in ([10, 40, 98, 99, 100, 130] if tier == "quick" else [10, 40, 60, 97, 98, 99, 100, 101, 130, 200]):
         jobs.append(("Glc(a1-4)" * d + "Glc", {}, "deep-chain"))
